@@ -142,6 +142,10 @@ func (d *dsys) expectBytes(r rune, comb []rune, wd int) [][]byte {
 		b = []byte("?")
 	}
 	for _, c := range comb {
+		if c < ' ' || (c >= 0x7f && c < 0xa0) || !utf8.ValidRune(c) || (c >= 0xfdd0 && c <= 0xfdef) || c&0xfffe == 0xfffe {
+			// a real screen writes no control character and no non-character from a combining list
+			continue
+		}
 		if e, ok := encode(d.enc, c); ok {
 			b = append(b, e...)
 		} else if f, ok := tcell.RuneFallbacks[c]; ok {
@@ -330,6 +334,8 @@ func drawScenarios() map[string][]op {
 		}
 		ops = append(ops, op{kind: "set", x: 2, r: 'e', comb: []rune{0x0301}}, op{kind: "set", x: 1, r: 0x2603}, op{kind: "set", x: 0, r: 0xe9, st: 3},
 			op{kind: "fill", r: 'b', st: 2}, op{kind: "clear"}, op{kind: "setstyle", st: 1}, show, sync)
+		// combining lists holding what is no combining mark: a control character, a C1 control, a non-character
+		ops = append(ops, op{kind: "set", x: 1, r: 'a', comb: []rune{0x07}}, op{kind: "set", x: 3, r: 'e', comb: []rune{0x0301, 0x9b, 0xfffe}})
 		out["W-wide-4x1"] = ops
 		out["W2-wide-from-shown-4x1"] = ops // the same alphabet from a screen that has been shown once (non-initial start state)
 	}
